@@ -38,8 +38,8 @@ pub fn family(rng: &mut Rng, cfg: &GenCfg, which: usize) -> Option<Vec<Doc>> {
             // deep chain, same or distinct names, optionally with a sibling at every level
             // depth classes: moderate; around 96..140; beyond 256 (thresholds of "stack protection" style changes)
             let depth = match rng.below(80) {
-                0..=72 => rng.range(5, 60),
-                73..=78 => rng.range(90, 140),
+                0..=75 => rng.range(5, 60),
+                76..=78 => rng.range(90, 140),
                 _ => rng.range(250, 290),
             };
             let same = rng.pct(50);
@@ -259,7 +259,7 @@ fn gen_session(rng: &mut Rng, no_twins: bool, c06: bool) -> Session {
     let k = if c06 { rng.range(2, 5) } else { *rng.pick(&[1usize, 1, 2, 2, 3, 3, 4, 5]) };
     let docs = match special_family(rng, &cfg) {
         // the unreliable-delivery property is not about depth: keep its (many-replica) sessions shallow
-        Some(d) if !(c06 && d.iter().any(|x| x.root.depth() > 60)) => d,
+        Some(d) if !(c06 && (d.iter().any(|x| x.root.depth() > 60) || d.len() > 5 || d.iter().map(|x| x.root.count()).sum::<usize>() > 600)) => d,
         _ => gen_history(rng, &cfg, k).1,
     };
     let very_deep = docs.iter().any(|x| x.root.depth() > 140);
@@ -379,6 +379,10 @@ struct Ctx<'a> {
 }
 
 fn prepare<'a>(s: &'a Session, ctr: &mut Ctr, need_twin_free: bool) -> Result<Result<Ctx<'a>, Exec>, String> {
+    prepare_with(s, ctr, need_twin_free, false)
+}
+
+fn prepare_with<'a>(s: &'a Session, ctr: &mut Ctr, need_twin_free: bool, sorted_too: bool) -> Result<Result<Ctx<'a>, Exec>, String> {
     if s.docs.is_empty() || s.replicas.is_empty() {
         return Ok(Err(skip("empty_session")));
     }
@@ -428,7 +432,7 @@ fn prepare<'a>(s: &'a Session, ctr: &mut Ctr, need_twin_free: bool) -> Result<Re
     if need_twin_free && prefix_twins(&model_all) {
         return Ok(Err(skip("precondition_prefix_twins")));
     }
-    let want = Want { renders: true, render_twice: false, obs: true };
+    let want = Want { renders: true, render_twice: false, obs: true, obs_sorted: sorted_too };
     let outs = run_session(s, &want)?;
     let trace = trace_hash(&outs);
     let mut sim_steps = 0;
@@ -601,9 +605,9 @@ impl Prop for C03 {
     }
     fn runs(&self, tier: &str) -> u64 {
         if tier == "thorough" {
-            3_000_000
+            2_500_000
         } else {
-            120_000
+            90_000
         }
     }
     fn gen(&self, seed: u64) -> Scenario {
@@ -683,9 +687,9 @@ impl Prop for C01 {
     }
     fn runs(&self, tier: &str) -> u64 {
         if tier == "thorough" {
-            3_000_000
+            2_500_000
         } else {
-            120_000
+            90_000
         }
     }
     fn gen(&self, seed: u64) -> Scenario {
@@ -779,9 +783,9 @@ impl Prop for C09 {
     }
     fn runs(&self, tier: &str) -> u64 {
         if tier == "thorough" {
-            3_000_000
+            2_500_000
         } else {
-            120_000
+            90_000
         }
     }
     fn gen(&self, seed: u64) -> Scenario {
@@ -793,7 +797,7 @@ impl Prop for C09 {
         if s.opts.len() < 2 || s.opts[0].by_name || !s.opts[1].by_name {
             return Ok(skip("needs_both_sort_options"));
         }
-        let c = match prepare(s, ctr, false)? {
+        let c = match prepare_with(s, ctr, false, true)? {
             Ok(c) => c,
             Err(e) => return Ok(e),
         };
@@ -908,9 +912,9 @@ impl Prop for C06 {
     }
     fn runs(&self, tier: &str) -> u64 {
         if tier == "thorough" {
-            2_500_000
+            2_000_000
         } else {
-            100_000
+            70_000
         }
     }
     fn gen(&self, seed: u64) -> Scenario {
